@@ -120,6 +120,10 @@ func QueryMessageDescByName(messageName string) *MessageDesc {
 }
 
 func SerializeRemotingMessage(codec Codec, writer *Writer, desc *MessageDesc, message any) error {
+	// 已注册类型的 nil 指针（如 (*PingMessage)(nil)）同样会命中内部写入器，写入器会直接解引用而 panic，需在此拒绝
+	if rv := reflect.ValueOf(message); rv.Kind() == reflect.Ptr && rv.IsNil() {
+		return fmt.Errorf("cannot serialize nil message of type %T", message)
+	}
 	dw := NewWriterFromPool()
 	defer ReleaseWriterToPool(dw)
 	if err := desc.writer(message, dw, codec); err != nil {
